@@ -8,6 +8,32 @@ NODE = ['src/node.rs']
 SRC = None  # all of src/ and incremental-map/src/
 
 
+def _bind_main_cutoff_type():
+    """C06: the bind's output node gets the default (PartialEq) cutoff of the bind's *result* type: in `Incr::bind`,
+    the node built around `Kind::BindMain` is created with `Node::create_rc::<R>` where `-> Incr<R>` is the result.
+    (A type argument: the units are monomorphic, so this is pinned syntactically.)  Positive evidence only: another
+    type argument is a violation; a different way of building the node is undecided."""
+    import re
+    from vx import rsrc
+    from vx.rsrc import mask, AnchorLost
+    from vx.template import read_repo
+    name = 'frame/bind-output-node-gets-the-result-types-default-cutoff'
+    try:
+        text = read_repo('src/incr.rs')
+        loc = rsrc.find_fn(text, 'bind', None)
+    except AnchorLost as e:
+        return dict(name=name, kind='frame/type-argument', ok=None, hits=0, detail=['anchor lost: %s' % e], sample=[])
+    sig = text[loc['start']:loc['body_open']]
+    mo = re.search(r'->\s*Incr<\s*(\w+)\s*>', mask(sig))
+    body = mask(text[loc['body_open']:loc['body_close'] + 1])
+    mk = re.search(r'create_rc::<\s*([^>]*?)\s*>\s*\((?:(?!create_rc)[\s\S])*?Kind::BindMain', body)
+    if not mo or not mk:
+        return dict(name=name, kind='frame/type-argument', ok=None, hits=0, detail=['anchor lost: `-> Incr<R>` / `create_rc::<..>(.. Kind::BindMain` not found in Incr::bind'], sample=[])
+    ok = mk.group(1) == mo.group(1)
+    return dict(name=name, kind='frame/type-argument', ok=ok, hits=1, sample=['create_rc::<%s> for BindMain, result Incr<%s>' % (mk.group(1), mo.group(1))],
+                detail=[] if ok else ['src/incr.rs::bind: the BindMain node is created with create_rc::<%s>, the result type is %s' % (mk.group(1), mo.group(1))])
+
+
 def frames(prop):
     fs = []
 
@@ -212,4 +238,5 @@ def frames(prop):
     add({'C05'}, lambda: F.each_guarded(
         'frame/every-recompute_heap.insert-is-dominated-by-a-necessity-test-or-assertion', r'recompute_heap\s*\.\s*insert\(',
         [r'is_necessary\(\)', r'needs_to_be_computed\(\)'], ['src/node.rs', 'src/state.rs', 'src/var.rs'], window=30, min_hits=5))
+    add({'C06'}, _bind_main_cutoff_type)
     return fs
